@@ -387,6 +387,9 @@ type_decl
             ihe = find_or_add_ident(
                 PROG_STRING($<number>$ = store_prog_string($3)),
                 FOA_GLOBAL_SCOPE);
+#ifdef NEOLITH_VERIF
+            VERIF_CTRACE_IHE ("ident.pre", ihe, ihe->dn.class_num, ihe->sem_value);
+#endif
             if (ihe->dn.class_num == -1)
                 ihe->sem_value++;
             else {
@@ -401,6 +404,9 @@ type_decl
                 yyerror(buf);
             }
             ihe->dn.class_num = (short)(mem_block[A_CLASS_DEF].current_size / sizeof(class_def_t));
+#ifdef NEOLITH_VERIF
+            VERIF_CTRACE_IHE ("ident.bind.class", ihe, ihe->dn.class_num, ihe->sem_value);
+#endif
         }
         member_list '}'
         {
